@@ -52,7 +52,17 @@ func rulesC09(c *Ctx) {
 				}
 				continue
 			}
-			if id, ok := w.LHS.(*ast.Ident); ok && id.Name == "isEOF" {
+			mentionsEOF := false
+			ast.Inspect(w.RHS, func(n ast.Node) bool {
+				if ce, ok := n.(*ast.CallExpr); ok && body.IsCallTo(ce, errIs) && len(ce.Args) == 2 && body.ObjOf(ce.Args[1]) == ioEOF {
+					mentionsEOF = true
+				}
+				return true
+			})
+			if id, ok := w.LHS.(*ast.Ident); ok && mentionsEOF {
+				if b, isBasic := body.TypeOf(id).Underlying().(*types.Basic); !isBasic || b.Kind() != types.Bool {
+					continue
+				}
 				isEOF = body.ObjOf(id)
 				ce, isC := ast.Unparen(w.RHS).(*ast.CallExpr)
 				exact := isC && body.IsCallTo(ce, errIs) && len(ce.Args) == 2 && body.ObjOf(ce.Args[0]) == errVar && body.ObjOf(ce.Args[1]) == ioEOF
@@ -201,15 +211,17 @@ func rulesC09(c *Ctx) {
 		c.Check(okPass, "handleSSE:reconnect-with-cursor", hs, nil, "the reconnect is given exactly the cursor returned by processStream")
 		cs := c.Fn(pM, "streamableClientConn", "connectSSE")
 		cg := cs.Graph()
+		cursorParam := cs.ParamWhere(func(t types.Type) bool { b, ok := t.(*types.Basic); return ok && b.Kind() == types.String })
+		c.Need(cursorParam != nil, "connectSSE: the string parameter carrying the resume cursor")
 		lei := c.Obj(pM, "lastEventIDHeader")
 		okHdr := false
 		for _, call := range cs.AllCalls(cs.Body, false) {
-			if fn := cs.Callee(call); fn != nil && fn.Name() == "Set" && len(call.Args) == 2 && cs.ObjOf(call.Args[0]) == lei && cs.ObjOf(call.Args[1]) == types.Object(cs.Param("lastEventID")) {
+			if fn := cs.Callee(call); fn != nil && fn.Name() == "Set" && len(call.Args) == 2 && cs.ObjOf(call.Args[0]) == lei && cs.ObjOf(call.Args[1]) == types.Object(cursorParam) {
 				guards := cg.GuardsAt(cg.VertexOf(call))
 				okHdr = hasAtom(guards, func(a Atom) bool {
 					x, y, op, isCmp := binaryCmp(a.E)
 					s, isC := cs.ConstString(y)
-					return isCmp && op == token.NEQ && a.Val && cs.ObjOf(x) == types.Object(cs.Param("lastEventID")) && isC && s == ""
+					return isCmp && op == token.NEQ && a.Val && cs.ObjOf(x) == types.Object(cursorParam) && isC && s == ""
 				})
 			}
 		}
@@ -227,7 +239,7 @@ func rulesC09(c *Ctx) {
 				x, y, op, ok1 := binaryCmp(b.X)
 				s, isC := ps.ConstString(y)
 				fx, twn, ok2 := NilTest(b.Y)
-				if ok1 && op == token.EQL && exprStr(x) == "lastEventID" && isC && s == "" && ok2 && !twn && ps.ObjOf(fx) == types.Object(ps.Param("forCall")) {
+				if ok1 && op == token.EQL && ps.ObjOf(x) == ps.NamedResult(0) && ps.NamedResult(0) != nil && isC && s == "" && ok2 && !twn && ps.ObjOf(fx) == types.Object(ps.ParamOfNamed(pJ, "Request")) {
 					unresumable = cv - 1
 				}
 			}
@@ -273,7 +285,7 @@ func rulesC09(c *Ctx) {
 					if !ok {
 						continue
 					}
-					if exprStr(kv.Key) == "ID" && exprStr(kv.Value) == "forCall.ID" {
+					if name, on := ps.SelectorOn(kv.Value, ps.ParamOfNamed(pJ, "Request")); exprStr(kv.Key) == "ID" && on && name == "ID" {
 						idOK = true
 					}
 					if exprStr(kv.Key) == "Error" && !isNilIdent(kv.Value) {
@@ -313,7 +325,7 @@ func rulesC09(c *Ctx) {
 				x, y, op, ok := binaryCmp(a.E)
 				s, isC := hs.ConstString(y)
 				return ok && op == token.EQL && a.Val && hs.ObjOf(x) == cursorVar && isC && s == ""
-			}) && hasAtom(guards, func(a Atom) bool { return AtomSaysNil(a, false, func(e ast.Expr) bool { return hs.ObjOf(e) == types.Object(hs.Param("forCall")) }) })
+			}) && hasAtom(guards, func(a Atom) bool { return AtomSaysNil(a, false, func(e ast.Expr) bool { return hs.ObjOf(e) == types.Object(hs.ParamOfNamed(pJ, "Request")) }) })
 			failed := false
 			for _, fv := range fvs {
 				if hg.Dominates(fv, rv) {
@@ -376,10 +388,15 @@ func rulesC09(c *Ctx) {
 
 	c.Rule("R-C09-5", "the retry budget: the counter is reset only on progress, incremented otherwise, checked before every reconnect; reconnect attempts are bounded and abortable", func() {
 		g := hs.Graph()
+		cursorVar := hs.VarFromCall(ps.Obj, 0)
+		maxRetries := c.Field(pM, "streamableClientConn", "maxRetries")
 		var ctr types.Object
 		for _, w := range Writes(hs.Body, false) {
-			if id, ok := w.LHS.(*ast.Ident); ok && id.Name == "retriesWithoutProgress" {
-				ctr = hs.ObjOf(id)
+			// the retry counter is the local that is incremented in handleSSE
+			if _, isInc := w.Stmt.(*ast.IncDecStmt); isInc {
+				if id, ok := w.LHS.(*ast.Ident); ok {
+					ctr = hs.ObjOf(id)
+				}
 			}
 		}
 		c.Need(ctr != nil, "handleSSE: retriesWithoutProgress")
@@ -400,7 +417,11 @@ func rulesC09(c *Ctx) {
 					_, y1, op1, ok1 := binaryCmp(b.X)
 					_, y2, op2, ok2 := binaryCmp(b.Y)
 					s, isC := hs.ConstString(y1)
-					return ok1 && ok2 && op1 == token.NEQ && op2 == token.NEQ && isC && s == "" && exprStr(y2) == "prevLastEventID"
+					x1, _, _, _ := binaryCmp(b.X)
+					x2, _, _, _ := binaryCmp(b.Y)
+					prev, isLocal := hs.ObjOf(y2).(*types.Var)
+					// both comparisons are about the cursor returned by processStream; the second against the previous cursor (a local)
+					return ok1 && ok2 && op1 == token.NEQ && op2 == token.NEQ && isC && s == "" && cursorVar != nil && hs.ObjOf(x1) == cursorVar && hs.ObjOf(x2) == cursorVar && isLocal && !prev.IsField() && types.Object(prev) != cursorVar
 				})
 			}
 			switch st := w.(type) {
@@ -426,7 +447,7 @@ func rulesC09(c *Ctx) {
 		for _, cv := range g.condVertices() {
 			cond := g.Node(cv - 1).(ast.Expr)
 			x, y, op, ok := binaryCmp(cond)
-			if ok && op == token.GTR && hs.ObjOf(x) == ctr && exprStr(y) == "c.maxRetries" && nInc == 1 && g.Dominates(incV, cv-1) {
+			if ok && op == token.GTR && hs.ObjOf(x) == ctr && hs.IsField(y, maxRetries) && nInc == 1 && g.Dominates(incV, cv-1) {
 				t, _ := g.BranchTargets(cv - 1)
 				seen, _ := g.reach([]int{t}, nil, nil)
 				reRec := false
@@ -447,7 +468,8 @@ func rulesC09(c *Ctx) {
 				return
 			}
 			x, y, op, isCmp := binaryCmp(fs.Cond)
-			if isCmp && (op == token.LEQ || op == token.LSS) && exprStr(x) == "attempt" && exprStr(y) == "c.maxRetries" {
+			post, _ := fs.Post.(*ast.IncDecStmt)
+			if isCmp && (op == token.LEQ || op == token.LSS) && post != nil && post.Tok == token.INC && cs.ObjOf(x) != nil && cs.ObjOf(x) == cs.ObjOf(post.X) && cs.IsField(y, maxRetries) {
 				// select with done and ctx.Done arms
 				hasDone, hasCtx := false, false
 				ast.Inspect(fs.Body, func(m ast.Node) bool {
